@@ -49,7 +49,7 @@ func (c12) Phases() []kit.Phase {
 			return 14000
 		}},
 		{Name: "enum-seq6", Exhaustive: true,
-			Space: "all sequences of length 1..6 over {Next,Scan,Err,Close} on one Solutions x 12 query shapes x 8 schedule seeds",
+			Space: "all sequences of length 1..6 over {Next,Scan,Err,Close} on one Solutions x 14 query shapes x 8 schedule seeds",
 			Count: func(tier string) uint64 {
 				if tier == "thorough" {
 					return uint64(c12EnumCount()) * 8
@@ -86,7 +86,7 @@ type c12Scenario struct {
 	Ops     []c12Op    `json:"ops"`
 }
 
-var c12Kinds = []string{"member", "between", "clauses", "det", "alt-tail", "error", "throw", "undefined", "findall", "repeat", "nat"}
+var c12Kinds = []string{"member", "between", "clauses", "det", "alt-tail", "error", "throw", "undefined", "findall", "repeat", "nat", "catch-all", "catch-err", "call", "once"}
 
 func c12Shapes() []c12Query {
 	// the 12 shapes used by the enumeration phase
@@ -94,6 +94,7 @@ func c12Shapes() []c12Query {
 		{Kind: "member", K: 0}, {Kind: "member", K: 1}, {Kind: "member", K: 3}, {Kind: "between", K: 2},
 		{Kind: "clauses", K: 2}, {Kind: "det", K: 1}, {Kind: "alt-tail", K: 1}, {Kind: "error", K: 0},
 		{Kind: "error", K: 2}, {Kind: "throw", K: 1}, {Kind: "repeat"}, {Kind: "nat"},
+		{Kind: "catch-all", K: 2}, {Kind: "catch-err", K: 1},
 	}
 }
 
@@ -230,6 +231,37 @@ func c12Build(q c12Query, id string) (text string, at func(i int) c12Item) {
 		}
 		for i := 1; i <= k; i++ {
 			items = append(items, T(fmt.Sprintf("a(%d)", i)), A(fmt.Sprintf("L=[%s] X=%d Y=_A", list1(k), i)))
+		}
+		items = append(items, end)
+	case "catch-all":
+		// a catch/3 that would catch anything stays on the stack while answers are handed over
+		text = fmt.Sprintf("catch((tick(%s, s), member(X, [%s]), tick(%s, a(X))), _, tick(%s, rec))", id, list1(k), id, id)
+		items = append(items, T("s"))
+		for i := 1; i <= k; i++ {
+			items = append(items, T(fmt.Sprintf("a(%d)", i)), A(fmt.Sprintf("X=%d", i)))
+		}
+		items = append(items, end)
+	case "catch-err":
+		l := list1(k)
+		if l != "" {
+			l += ","
+		}
+		text = fmt.Sprintf("catch((member(X, [%sfoo]), tick(%s, a(X)), Y is X + 0), error(type_error(_, _), _), (tick(%s, rec), Y = caught))", l, id, id)
+		for i := 1; i <= k; i++ {
+			items = append(items, T(fmt.Sprintf("a(%d)", i)), A(fmt.Sprintf("X=%d Y=%d", i, i)))
+		}
+		items = append(items, T("a(foo)"), T("rec"), A("X=_A Y=caught"), end)
+	case "call":
+		text = fmt.Sprintf("call((tick(%s, s), member(X, [%s]), tick(%s, a(X))))", id, list1(k), id)
+		items = append(items, T("s"))
+		for i := 1; i <= k; i++ {
+			items = append(items, T(fmt.Sprintf("a(%d)", i)), A(fmt.Sprintf("X=%d", i)))
+		}
+		items = append(items, end)
+	case "once":
+		text = fmt.Sprintf("once((member(X, [%s]), tick(%s, a(X))))", list1(k), id)
+		if k >= 1 {
+			items = append(items, T("a(1)"), A("X=1"))
 		}
 		items = append(items, end)
 	case "repeat":
@@ -479,6 +511,8 @@ func (c12) Exec(r *kit.Run) {
 					want := "nil"
 					if m.ended {
 						want = m.endErr
+					} else if m.cancelled {
+						want = "nil|ctx" // the search may already have noticed the cancellation
 					}
 					ok := false
 					for _, w := range strings.Split(want, "|") {
